@@ -15,16 +15,16 @@ P = {
  'C02': ('abstract interpretation of the per-name renderer (severity fold over every row shape x incoming status x presentation state), of output_algorithms and output() (status threading), of Policy.evaluate (verdict component); backward slices for option independence; CFG reachability of parse-free returns of audit(); symbolic byte budget for truncated messages',
          'Decides: the fold is max over GOOD<WARNING<FAILURE (9-row table extracted from the guards), the status is threaded through every category and returned unchanged, it has no dependence on output options, every exit of audit() not dominated by a successful parse returns CONNECTION_ERROR and renders no algorithm report, and the policy verdict maps to GOOD/FAILURE.',
          'Trusts ast and the hand-built CFG; tag text vs level correspondence is by shared loop variable only.', '4/C02'),
- 'C03': ('abstract interpretation of the text and JSON note lookups on a synthetic rating table (levels, unknown names, agreement of the views); backward slice for locality; alias / mutation inventory of the rating-table writers over all functions; per-thread registry by interpretation; loop-carried dependence on the CFG of the host-key probe',
+ 'C03': ('abstract interpretation of the text and JSON note lookups on a synthetic rating table (levels, unknown names, agreement of the views); backward slice for locality; alias / mutation inventory of the rating-table writers over all functions; per-thread registry and privacy of the table copy by interpretation (object identity on a synthetic table); loop-carried dependence on the CFG of the host-key probe',
          'Decides locality (notes depend only on category, name, table row), single table source and key normalisation agreement across text/JSON/lookup, unknown-never-good, and the complete inventory of writers of the rating table.',
          'Trusts the resolver (by-name over-approximation for untyped receivers) and the frozen writer table.', '4/C03'),
  'C04': ('abstract interpretation of post_process_findings and its nested helpers on an object model of the parsed message: decision table over role x strict-kex marker x ChaCha x CBC x ETM (warnings read from the resulting table), totality by crash detection on unknown names; who-may-call over the call graph; registry model',
          'Decides the complete Terrapin decision table, predicate agreement between enabled/not-enabled helpers and database names, suppression-list flow into both recommendation paths, and totality of the table subscript on peer-supplied names.',
          'Published rule = the tool\'s shape predicates (stated in DESIGN); advisory note wording not decided.', '4/C04'),
- 'C05': ('writer / reader agreement of the policy template against the loader dispatch; abstract interpretation of Policy.evaluate on a drift table (one attribute perturbed at a time) and of the size-map normaliser; separator-safety lint against the database alphabet; interpretation of the host-key blob walk for CA capture; constant evaluation of built-in policies',
+ 'C05': ('abstract interpretation of the policy file round trip (Policy.create on a peer -> text -> constructor -> policy state -> Policy.evaluate) for peers with certificates, group exchange and names containing = + / @, with the drift table (one attribute perturbed at a time) evaluated on the loaded state; interpretation of the size-map normaliser and of KexDH.recv_reply per blob layout (CA capture); must-pass-through on the CFG of audit() (both probes before a policy is written or evaluated); constant evaluation of built-in policies',
          'Decides format-key agreement, separator safety for every name the database can produce, exact-mode comparisons per covered attribute, and satisfiability conditions of all built-in policies.',
          'Round trip of names outside RFC 4251 alphabet not decided.', '4/C05'),
- 'C06': ('abstract interpretation of Policy.evaluate (helper methods and the error recorder in place) over 6 policy states x ~90 peers x 4 flag combinations, compared with an executable statement of the documented matching rules (verdict, reported fields, record contents, pairing, monotonicity); call-graph freshness of the error accumulator',
+ 'C06': ('abstract interpretation of the policy constructor on hand-written policy files (the state the verdict is computed from is what the file specifies) and of Policy.evaluate (helper methods and the error recorder in place) over 6 policy states x ~90 peers x 4 flag combinations, compared with an executable statement of the documented matching rules (verdict, reported fields, record contents, pairing, monotonicity); call-graph freshness of the error accumulator',
          'Decides verdict<=>error pairing at every site, the per-field decision tables for exact/subset/larger-keys modes (direction of subset test, strict-kex exception, size orderings), error contents (expected/actual not crossed) and the syntactic form that implies monotonicity.',
          'Text of the rendered Errors block not decided.', '4/C06'),
  'C07': ('inventory of long-lived mutable state + alias-tracked writer set reachable from the pool task (call graph); per-thread registry by abstract interpretation of get_db / thread_exit; typestate (acquire / release) on the worker CFG; copy-hook depth analysis',
@@ -33,16 +33,16 @@ P = {
  'C08': ("exception-escape analysis of the worker entry over the resolved call graph (incl. SystemExit); constant evaluation of the rank list; abstract interpretation of main()'s multi-target loop (status fold over all status triples, block structure of the printed sequence); reachable-flush rule over the call graph",
          'Decides: nothing but a normal return can leave a worker task, every returnable status is ranked and the fold is max by rank, one print per future with well-formed array delimiters, JSON provenance of worker text.',
          'Trusts the partial-operation table and resolver; real stdout interleaving not decided.', '4/C08'),
- 'C09': ('exception-escape fixed point over the call graph with a repo-specific partial-operation table; path-condition facts incl. conditional expressions and short-circuit operands (implied atoms) and a CFG must-analysis for non-emptiness; loop-bound classification; timeout finiteness; symbolic byte budget of read_packet',
+ 'C09': ('exception-escape fixed point over the call graph with a repo-specific partial-operation table; path-condition facts incl. conditional expressions and short-circuit operands (implied atoms) and a CFG must-analysis for non-emptiness; loop-bound classification; timeout finiteness; symbolic byte budget of read_packet; crashes proved by the host-key probe model on hostile measurements enter the escape analysis as sites',
          'Decides the crash clause structurally (which exception classes can escape audit() from peer-driven partial operations, with witness chains), probe isolation, timeout presence on every wait and bounds on peer-driven loops.',
          'Wall-clock and memory bounds not decided; partial-operation table is hand-confirmed.', '4/C09'),
- 'C10': ('abstract interpretation round trip of the KEXINIT and SSH-1 key messages on an object model (parse on read tokens -> object -> write: token by token, codec by codec); linear-form reader model of read_packet per protocol version; struct-format pairing by constant comparison; residue-exhaustive evaluation of the padding expression; typestate (holds bytes) for write_string',
+ 'C10': ('abstract interpretation round trip of the KEXINIT and SSH-1 key messages on an object model (parse on read tokens -> object -> write: token by token, codec by codec); abstract interpretation of every primitive writer / reader (bytes, booleans, uint32, strings, name-lists, SSH-1 and SSH-2 mpints of both signs around +-2^k up to 8192 bits) and of both packet builders against the RFC 4251 / 4253 encodings on boundary families; linear-form reader model of read_packet per protocol version',
          'Decides field order/codec agreement of KEXINIT and SSH-1 key message writers vs parsers, primitive format pairs, word composition signedness of the mpint reader, and framing arithmetic for all payload lengths (periodic in 8).',
          'Value-level round trips are not claimed.', '4/C10'),
- 'C11': ("abstract interpretation of the whole host-key probe (HostKeyTest.perform_test, no-exception path) over boundary sizes x key kinds x CA kinds: what lands in the rating table and the host-key record; CFG must-assignment of the key-exchange object's measurement fields; interpretation of the host-key blob walk per layout",
+ 'C11': ("abstract interpretation of the whole host-key probe (HostKeyTest.perform_test, no-exception path) over boundary sizes x key kinds x CA kinds: what lands in the rating table and the host-key record; CFG must-assignment of the key-exchange object's measurement fields; interpretation of KexDH.recv_reply per blob layout with the arguments the probe passes",
          'Decides the rating thresholds (fail <2048, warn <3072, none otherwise; antitone), where the rating lands (rows, RSA family), record key agreement and fingerprint source agreement between text and JSON.',
          'Measured sizes/fingerprint values not decided.', '4/C11'),
- 'C12': ('abstract interpretation of GEXTest.run against 4096+ server moduli policies and fixed-modulus boundary servers (recorded size, rating rows, fallback note), of _send_init (request, reply, then measure), of post_process_findings (OpenSSH 2048 note / suppression table); CFG dominance in send_init_gex',
+ 'C12': ('abstract interpretation of GEXTest.run against 4096+ server moduli policies and fixed-modulus boundary servers (recorded size, rating rows, fallback note), of _send_init (request, reply, then measure), of post_process_findings (OpenSSH 2048 note / suppression table); abstract interpretation of send_init_gex on scripted group messages inside and outside the requested range and on refusals',
          'Decides thresholds, size-only-when-measured guard structure, fixed probe sequence and OpenSSH second-pass wiring, and the 2048 note/suppression truth table.',
          'Smallest-modulus-for-every-server-policy not decided.', '4/C12'),
  'C13': ('abstract interpretation of Algorithms.get_recommendations and get_algorithm_recommendations on a synthetic rating table x peers x identified / unidentified software, compared with an executable statement of the documented rule (add / del / chg, points, levels, suppression); suppression-list contents by interpretation of post_process_findings',
@@ -54,7 +54,7 @@ P = {
  'C15': ('abstract interpretation of the per-name renderer (status / unknown list identical under every presentation state; every note printed), of OutputBuffer._print / reset / get_level (level filter table); backward slices of the status chain; CFG check of the single JSON emission; determinism lint',
          'Decides: findings and status do not depend on presentation options, the level filter only drops, one json.dumps(sort_keys) document per scan with nothing emitted after it, no unguarded immediate writes in JSON mode, no hash-order iteration on the audit path.',
          'Byte identity of real runs not decided.', '4/C15'),
- 'C16': ('regular-language inclusion on automata built from the regex AST (re._parser); abstract interpretation of Banner.parse on a family of identification lines (constant patterns applied with the re module) and of the printable-ASCII helpers; CFG of the banner loop (complete-line rule, header separation); product-pattern automata',
+ 'C16': ('regular-language inclusion on automata built from the regex AST (re._parser); abstract interpretation of Banner.parse on a family of identification lines (constant patterns applied with the re module) and of the printable-ASCII helpers; abstract interpretation of SSH_Socket.get_banner on scripted peers (TCP segments, split lines, close / timeout: which lines are tried, banner vs. header, nothing consumed behind the banner); product-pattern automata',
          'Decides acceptance: L(banner grammar) is included in L(RX_BANNER) over printable ASCII (with counter-example otherwise), both ASCII filters agree, header/banner separation, product table shape.',
          'Captured parts vs grammar parts not decided.', '4/C16'),
  'C17': ('exhaustive enumeration of literal tables with a constant evaluator over the AST (cross-references, shapes, broken primitives), built-in policy sizes pushed through the host-key probe model',
